@@ -1051,6 +1051,106 @@ class NormFnBytes(NormFn):
 
 ALL_NORM = [NormPattern(), NormPatternBytes(), NormFn(), NormFnBytes()]
 
+
+# --------------------------------------------------------------------------------------------------------------- WcParse._references
+class ParseReferences(Contract):
+    """WcParse._references(i, sequence): what a backslash followed by one character means.  The StringIter is ghost state (text s, index), its operations
+    are the StringIter contracts.  Escaped backslash: a separator under the Windows path rules (bslash_abort), the separator CLASS under the Windows rules in
+    file-name mode, otherwise the two characters `\\`.  Escaped slash: a separator in path mode, the separator class otherwise.  Outside an extended group a
+    separator starts a new segment (set_start_dir); inside a group it is the restricted form and the tracker is left alone.  Inside a bracket (sequence) an
+    escaped separator ends the bracket attempt (PathNameException).  An escaped dot is handed back (DotException, index rewound by one).  Anything else is
+    the escaped character itself."""
+    module, qual, props = '_wcparse', 'WcParse._references', ('C02', 'C17', 'C01', 'C10', 'C03')
+    allowed_raises = ('StopIteration', 'PathNameException', 'DotException')
+    forking = ('next',)
+
+    def inputs(self):
+        self.s, self.i0 = z3.String('i__string'), z3.Int('i__index')
+        b = lambda n: z3.Bool('self_' + n)     # noqa: E731
+        self.f = {n: b(n) for n in ('bslash_abort', 'in_list', 'unix', 'pathname', 'dir_start', 'after_start')}
+        self.sep, self.bare, self.seqp = z3.String('self_sep'), z3.String('self_bare_sep'), z3.String('self_seq_path')
+        self.seq = z3.Bool('sequence')
+        fields = {n: Bool(t) for n, t in self.f.items()}
+        fields.update(sep=Str(self.sep), bare_sep=Str(self.bare), seq_path=Str(self.seqp))
+        # object invariant of WcParse.__init__ (proved there): a backslash separator only in Windows path mode
+        pre = [self.i0 >= 0, self.i0 <= z3.Length(self.s), z3.Implies(self.f['bslash_abort'], z3.And(z3.Not(self.f['unix']), self.f['pathname']))]
+        return dict(params=dict(self=selfobj(), i=ObjV(z3.Const('i', Obj)), sequence=Bool(self.seq)), fields=fields, pre=pre, ghost={'$idx': self.i0})
+
+    @property
+    def hooks(self):
+        me = self
+
+        def h_next(eng, node, st, args):
+            idx = st.ghost['$idx']
+
+            def upd(s2):
+                s2.ghost['$idx'] = idx + 1
+            return Fork([(idx < z3.Length(me.s), Str(_at(me.s, idx)), upd), (idx >= z3.Length(me.s), Outcome('raise', exc='StopIteration'), None)])
+
+        def h_rewind(eng, node, st, args):
+            idx = st.ghost['$idx']
+            eng.oblige('WcParse._references.rewind_never_goes_past_the_beginning', st, z3.And(args[0].t >= 0, args[0].t <= idx), node)
+            st.ghost['$idx'] = idx - args[0].t
+            return NONE
+
+        def h_ssd(eng, node, st, args):
+            st.fields['dir_start'], st.fields['after_start'] = Bool(True), Bool(False)
+            return NONE
+
+        def h_res(eng, node, st, args):
+            return Str(z3.If(T(st.fields['pathname']), me.seqp, z3.StringVal('')))
+        return {'next': h_next, 'i.rewind': h_rewind, 'self.set_start_dir': h_ssd, 'self._restrict_extended_slash': h_res,
+                're.escape': lambda eng, node, st, args: U('fn.re.escape', *args)}
+
+    def ch(self):
+        return _at(self.s, self.i0)
+
+    def pne(self):
+        f = self.f
+        return z3.And(self.seq, z3.Or(z3.And(self.ch() == z3.StringVal('\\'), f['bslash_abort']), z3.And(self.ch() == z3.StringVal('/'), f['pathname'])))
+
+    @property
+    def ensures(self):
+        me = self
+        f = self.f
+
+        def post(c):
+            consts, _ = pyvc.consts_of('_wcparse')
+            plus = z3.StringVal(consts['_ONE_OR_MORE'])
+            ch = me.ch()
+            bs, sl, dot = z3.StringVal('\\'), z3.StringVal('/'), z3.StringVal('.')
+            S = lambda t: pyvc.to_obj(Str(t))     # noqa: E731
+            new_segment = z3.Concat(me.sep, plus)
+            in_group = z3.Concat(z3.If(f['pathname'], me.seqp, z3.StringVal('')), me.sep)
+            cls = z3.If(me.seq, me.bare, me.sep)
+            want_bs = z3.If(f['bslash_abort'], z3.If(f['in_list'], in_group, new_segment), z3.If(z3.Not(f['unix']), cls, z3.StringVal('\\\\')))
+            want_sl = z3.If(f['pathname'], z3.If(f['in_list'], in_group, new_segment), cls)
+            r = pyvc.to_obj(c.ret)
+            value_ok = z3.If(ch == bs, r == S(want_bs), z3.If(ch == sl, r == S(want_sl), r == U('fn.re.escape', Str(ch)).t))
+            starts_segment = z3.And(z3.Not(f['in_list']), z3.Or(z3.And(ch == bs, f['bslash_abort']), z3.And(ch == sl, f['pathname'])))
+            fs = c.st.fields
+            tracker = z3.If(starts_segment, z3.And(T(fs['dir_start']), z3.Not(T(fs['after_start']))), z3.And(T(fs['dir_start']) == f['dir_start'], T(fs['after_start']) == f['after_start']))
+            return z3.And(me.i0 < z3.Length(me.s), c.st.ghost['$idx'] == me.i0 + 1, ch != dot, z3.Not(me.pne()), value_ok, tracker)
+
+        return [('WcParse._references.escaped_separator_is_a_separator_of_the_mode_in_force_(new_segment_outside_a_group,restricted_inside,class_in_file-name_mode);other_characters_are_themselves', ('C02', 'C17', 'C01', 'C03'), post)]
+
+    @property
+    def exc_ensures(self):
+        me = self
+        f = self.f
+
+        def post(c):
+            fs = c.st.fields
+            same = z3.And(T(fs['dir_start']) == f['dir_start'], T(fs['after_start']) == f['after_start'])
+            if pyvc.isa(c.exc, 'PathNameException'):
+                return z3.And(me.i0 < z3.Length(me.s), c.st.ghost['$idx'] == me.i0 + 1, me.pne(), same)
+            if pyvc.isa(c.exc, 'DotException'):
+                return z3.And(me.i0 < z3.Length(me.s), me.ch() == z3.StringVal('.'), c.st.ghost['$idx'] == me.i0, same)
+            return z3.And(z3.BoolVal(pyvc.isa(c.exc, 'StopIteration')), me.i0 == z3.Length(me.s), c.st.ghost['$idx'] == me.i0, same)
+        return [('WcParse._references.StopIteration_at_the_end;PathNameException_for_a_separator_escaped_inside_a_bracket;DotException_hands_an_escaped_dot_back_(index_rewound)', ('C02', 'C10', 'C03'), post)]
+
+    obligation_props = {'WcParse._references.rewind': ('C10',)}
+
 ALL_EXP = [IterPatternsFn(), IterPatternsSeq(), IterPatternsBytes(), TildePos(), TildePosBytes(), ExpandBraces(), EscapeFn(), EscapeFnBytes()]
 
-ALL = [SetAfterStart(), SetStartDir(), ResetDirTrack(), UpdateDirState(), RestrictSequence(), RestrictExtendedSlash(), ParseFrame(), ParseBytes()] + ALL_EXP + ALL_SCAN + ALL_NORM
+ALL = [SetAfterStart(), SetStartDir(), ResetDirTrack(), UpdateDirState(), RestrictSequence(), RestrictExtendedSlash(), ParseFrame(), ParseBytes(), ParseReferences()] + ALL_EXP + ALL_SCAN + ALL_NORM
